@@ -13,6 +13,7 @@ pub mod read;
 pub mod roundtrip;
 pub mod index;
 pub mod json;
+pub mod text;
 pub mod cache;
 pub mod cli;
 pub mod det;
@@ -37,6 +38,7 @@ pub fn by_name(name: &str) -> Option<Box<dyn Engine>> {
         "roundtrip" => Some(Box::new(roundtrip::Roundtrip)),
         "index" => Some(Box::new(index::Index)),
         "json" => Some(Box::new(json::Json)),
+        "text" => Some(Box::new(text::Text)),
         "cache" => Some(Box::new(cache::Cache)),
         "cli" => Some(Box::new(cli::Cli)),
         "det" => Some(Box::new(det::Det)),
